@@ -979,6 +979,7 @@ void BW_MidiSequencer::buildTimeLine(const std::vector<MidiEvent> &tempos,
     m_fullSongTimeLength += m_postSongWaitDelay;
     // Set begin of the music
     m_trackBeginPosition = m_currentPosition;
+    m_tempoInitial = m_tempo;
     // Initial loop position will begin at begin of track until passing of the loop point
     m_loopBeginPosition  = m_currentPosition;
     // Set lowest level of the loop stack
@@ -2228,6 +2229,9 @@ void BW_MidiSequencer::rewind()
 {
     m_currentPosition   = m_trackBeginPosition;
     m_atEnd             = false;
+    // Tempo events met so far must not leak into the begin of the song
+    if(!m_trackData.empty())
+        m_tempo = m_tempoInitial;
 
     m_loop.loopsCount = m_loopCount;
     m_loop.reset();
